@@ -10,11 +10,12 @@ SPEC = {
              'nested operations issued from inside event actions) checked online against the reference '
              'queue model refs/evq.py: all sequences up to length L (5 quick / 6 thorough) over a 10-op '
              'pause-centric alphabet after a prefix that moves the clock off zero, enumerated completely '
-             'under the fifo tie policy, then random sequences of length 10-80 under every tie policy; '
+             'under the fifo tie policy, then random sequences of length 10-80 under every tie policy, plus generated production lines with dense fault '
+             'scripts (maintenance pauses, failures cancel, restores resume) with the same queue model attached; '
              'non-trivial = an event was resumed after a pause of non-zero length that began at a '
              'non-zero time and later executed; distinct = by hash of the op list and tie policy'),
     'floors': {'quick': {'resumes_nonzero_pause_nonzero_time': 500, 'dispatches_checked': 5000,
-                         'events_cancelled': 200},
+                         'events_cancelled': 200, 'line_events_resumed': 50, 'line_events_cancelled': 40},
                'thorough': {'resumes_nonzero_pause_nonzero_time': 10000, 'dispatches_checked': 100000,
                             'events_cancelled': 5000}},
     'exhaustive_key': 'exhaustive_sequences',
@@ -55,7 +56,15 @@ def run(sh):
         ops = engine_evq.random_ops(rng, pause_centric=True, aim_pauses=rng.random() < 0.3)
         tie = ties.POLICIES[i % 4]     # prng, fifo, lifo, const
         one(sh, ops, tie, rng.randrange(1 << 30), False)
+    # whole lines: maintenance shutdowns pause, failures cancel, restores resume the machine's events
+    from .. import engine_line
+    engine_line.run_profile(sh, 'C07', 'faults', 160 if sh.tier == 'quick' else 3200, ('queue',),
+                            nontrivial=lambda f: f.get('shifted_resumes', 0) > 0, prefix='line_')
 
 
 def replay(sh, v):
-    engine_evq.run_case(sh, v['case'], 'C07')
+    if v['case'].get('engine') == 'line':
+        from .. import engine_line
+        engine_line.replay_case(sh, 'C07', v['case'], ('queue',))
+    else:
+        engine_evq.run_case(sh, v['case'], 'C07')
